@@ -14,6 +14,6 @@ for id in $IDS; do
   LLVM_PROFILE_FILE="$PD/%p-%m.profraw" VERIF_ROOT=/verif VERIF_EVIDENCE_DIR=/tmp/verif_scratch_evidence VERIF_RUNS=${COV_RUNS:-20000} $BIN check $id --tier quick 2>&1 | tail -1
 done
 $TOOLS/llvm-profdata merge -sparse $PD/*.profraw -o $PD/all.profdata
-$TOOLS/llvm-cov report $BIN -instr-profile=$PD/all.profdata --ignore-filename-regex='(\.cargo|/rustc/|/verif/|/tests/)' 2>/dev/null | awk '{print $1, $8, $9, $10}' | column -t > /verif/mutants/coverage_report.txt
+$TOOLS/llvm-cov report $BIN -instr-profile=$PD/all.profdata --ignore-filename-regex='(\.cargo|/rustc/|/verif/|/tests/)' 2>/dev/null | awk '{print $1, $8, $9, $10}' > /verif/mutants/coverage_report.txt
 $TOOLS/llvm-cov export $BIN -instr-profile=$PD/all.profdata --format=lcov --ignore-filename-regex='(\.cargo|/rustc/|/verif/|/tests/)' > $PD/all.lcov 2>/dev/null
 echo "report: /verif/mutants/coverage_report.txt ; lcov: $PD/all.lcov"
